@@ -420,8 +420,8 @@ func (c *Context) Rem(d, x, y *Decimal) (Condition, error) {
 		return c.goError(InvalidOperation)
 	}
 	if y.Form == Infinite {
-		d.Set(x)
-		return 0, nil
+		// x rem Infinity is x, rounded to the context like every other result.
+		return c.goError(c.round(d, x))
 	}
 
 	var res Condition
